@@ -73,11 +73,20 @@ where
     );
     let o_unsub = observer.clone();
 
-    let mut unsubscribers = self.unscribers.write().unwrap();
-    unsubscribers.insert(
-      serial.clone(),
-      FunctionWrapper::new(move |_| o_unsub.unsubscribe()),
-    );
+    {
+      let mut unsubscribers = self.unscribers.write().unwrap();
+      unsubscribers.insert(
+        serial.clone(),
+        FunctionWrapper::new(move |_| o_unsub.unsubscribe()),
+      );
+    }
+    if !self.subscriber.is_subscribed() {
+      // the subscription ended while this upstream was being attached (subscribe_on attaches its
+      // source from the scheduler's thread): finalize may already have run and will never see
+      // this entry, so detach it here; the source is then not started for a dead observer
+      self.unscribers.write().unwrap().remove(&serial);
+      observer.unsubscribe();
+    }
     observer
   }
 
